@@ -163,6 +163,10 @@ func replay(r *vk.Run) {
 		var l listenCase
 		json.Unmarshal(raw, &l)
 		replayListen(r, l)
+	case "config-api":
+		var cc configCase
+		json.Unmarshal(raw, &cc)
+		sweepConfigured(c, cc.Config)
 	case "new":
 		fmt.Println("constructor case: re-running the constructor sweep")
 		sweepArgs(r)
